@@ -290,6 +290,34 @@ theorem sub_repair (C x : Int) (l : List Int) :
     congr 1
     omega
 
+/-! fixed-width wrap-around: the same repair laws in `BitVec w` (numpy's int8 … uint64 arithmetic) -/
+theorem bv_shift_add (w : Nat) (C x y : BitVec w) : (x + y) - (C + y) = x - C := by
+  rw [BitVec.sub_eq_iff_eq_add, BitVec.add_comm C y, ← BitVec.add_assoc, BitVec.add_comm (x - C) y,
+    BitVec.add_assoc, BitVec.sub_add_cancel, BitVec.add_comm]
+
+theorem bv_shift_sub (w : Nat) (C x y : BitVec w) : (x - y) - (C - y) = x - C := by
+  rw [BitVec.sub_eq_iff_eq_add, BitVec.sub_eq_iff_eq_add, BitVec.add_assoc, BitVec.sub_add_cancel, BitVec.sub_add_cancel]
+
+theorem bv_add_repair (w : Nat) (C x : BitVec w) (l : List (BitVec w)) :
+    (Model.accumulateFrom (· + ·) C l).map (fun c => c + (x - C)) = Model.accumulateFrom (· + ·) x l := by
+  induction l generalizing C x with
+  | nil => rfl
+  | cons y ys ih =>
+    simp only [Model.accumulateFrom, List.map_cons]
+    rw [← bv_shift_add w C x y, ih (C + y) (x + y)]
+    congr 1
+    rw [BitVec.add_comm, BitVec.sub_add_cancel]
+
+theorem bv_sub_repair (w : Nat) (C x : BitVec w) (l : List (BitVec w)) :
+    (Model.accumulateFrom (· - ·) C l).map (fun c => c + (x - C)) = Model.accumulateFrom (· - ·) x l := by
+  induction l generalizing C x with
+  | nil => rfl
+  | cons y ys ih =>
+    simp only [Model.accumulateFrom, List.map_cons]
+    rw [← bv_shift_sub w C x y, ih (C - y) (x - y)]
+    congr 1
+    rw [BitVec.add_comm, BitVec.sub_add_cancel]
+
 section Xor
 variable [XorLike α]
 
